@@ -336,6 +336,24 @@ def run(ctx):
            fail="_connect does not arm the connection lifetime")
     from ..shared import check as shared_check
     shared_check(ctx, "C07.b", [prog.cls(V2), prog.cls(V3), prog.cls(LAN)], "the protocol and connection classes")
+    # ---- C07.e one exchange at a time per connection: the device layer awaits its sends one after another.  Two sends running concurrently on
+    # one LAN object each find the session expired, each write a handshake request, and the client and the device end up with different keys.
+    dev = prog.cls("msmart.base_device.Device")
+    conc = []
+    for k_ in [dev] + [c_ for c_ in prog.subclasses(dev) if c_ is not dev]:
+        for m_ in k_.methods.values():
+            for n_ in ast.walk(m_.node):
+                if isinstance(n_, ast.Call) and norm(n_.func).split(".")[-1] in ("gather", "create_task", "ensure_future", "wait", "as_completed", "run_coroutine_threadsafe"):
+                    inner_calls = [c_ for a_ in list(n_.args) + [kw.value for kw in n_.keywords] for c_ in ast.walk(a_)
+                                   if isinstance(c_, ast.Call) and isinstance(c_.func, ast.Attribute) and isinstance(c_.func.value, ast.Name) and m_.params
+                                   and c_.func.value.id == m_.params[0] and (c_.func.attr.startswith("_send_command") or c_.func.attr in ("refresh", "apply", "get_capabilities", "toggle_display", "authenticate"))]
+                    if inner_calls:
+                        conc.append((m_, n_))
+    ctx.count("concurrency_scans")
+    ctx.ob("C07.e", dev.qual, not conc, "device operations await their exchanges one at a time (no gather / task over sends on one connection)", func=conc[0][0].qual if conc else dev.qual,
+           file=(conc[0][0] if conc else dev.methods["_send_command"]).module.rel, node=conc[0][1] if conc else None, construct="asyncio.gather over sends",
+           fail=(f"{conc[0][0].qual} runs several exchanges concurrently on one connection (`{norm(conc[0][1])[:70]}`): with an expired session each of them starts its own "
+                 "handshake and the data packets that follow are encrypted under a key the device has already replaced") if conc else "")
     # the session a data packet is encrypted under is the one the handshake established: who stores key / expiry, and when (C06's obligations)
     from . import c06
     ctx.import_rules(c06, "t6")
